@@ -3,6 +3,7 @@
 # announcement (same or different message), plus a collision stream (distinct exporter/id pairs with
 # equal FNV-1-32, found by a seeded birthday search).
 import struct
+import vf
 from props.c03 import FlowFidelity
 from props.flowgen import Gen, Oracle, Tpl
 from props.flowprop import SEP, go_model, parse_dgram, header_of, go_drop_rule
@@ -207,6 +208,65 @@ class P(FlowFidelity):
             out += [self.gen_sandwich(g, rng) if i % 8 == 7 else self.gen_case(g, rng) for i in range(budget // 2)]
         return out
 
+    def extra(self, tier, rng, known):
+        """templates fetched from PEER collectors (ipfix/memcache_rpc.go): a peer learns templates of several exporters by decoding
+        (plain, options, enterprise-specific, same id under different exporters, longer then shorter), serves them with the real
+        RPCServer on localhost, and every request is answered by the peer's own look-up, over one connection used for all
+        requests and over a connection per request: the three must agree (an answer is the template THAT exporter announced
+        under THAT id, whatever was fetched before), and a key the peer does not hold is not available"""
+        import time
+        from props.flowgen import Gen, Tpl
+        g = Gen("ipfix", go_model(), rng)
+        viol, n, notes = [], 0, []
+        for rep in range(3 if tier == "quick" else 12):
+            ex = [rand_addr(rng) for _ in range(rng.choice([2, 3]))]
+            hist, reqs, seq = [], [], []
+            for a in ex:
+                tids = rng.sample([256, 257, 300, 400], rng.choice([2, 3]))
+                for tid in tids:
+                    # options template first, plain afterwards, enterprise-specific next to IANA, many fields then few
+                    kind = len(seq) % 4
+                    if kind == 0:
+                        t, o = g.rand_tpl(tid=tid, opts=True, allow_var=False)
+                    elif kind == 1:
+                        t, o = g.rand_tpl(tid=tid, opts=False, nfields=rng.choice([1, 2]), allow_var=False)
+                    elif kind == 2:
+                        t, o = Tpl(tid, [], [(1, 9, 4), (2, 9, 4), (3, 9, 1), (4, 9, 8)]), False
+                    else:
+                        t, o = g.rand_tpl(tid=tid, opts=False, nfields=rng.choice([3, 6]), allow_var=False)
+                    hist += [hx(a), hx(g.enc_msg([g.enc_set(g.tpl_set_id(o), g.enc_tpl(t, o))]))]
+                    seq.append((a, tid))
+            rng.shuffle(seq)
+            seq = seq[:2] + [(ex[0], 999)] + seq[2:] + [(rand_addr(rng), seq[0][1])]     # two keys the peer does not hold
+            line = "rpcget %s R %s" % (" ".join(hist), " ".join("%s %d" % (hx(a), tid) for a, tid in seq))
+            out = None
+            for attempt in range(6):
+                out = vf.run_impl([line], shards=1)[0]
+                if not out.startswith(("RPC-PORT-BUSY", "RPC-SERVER-DOWN", "RPC-DIAL-ERROR")):
+                    break
+                time.sleep(1.5)
+            if out.startswith("RPC-"):
+                notes.append("peer fetch case skipped: TCP port 8085 of this host is in use (%s)" % out[:60])
+                continue
+            n += 1
+            parts = dict(x.split(" ", 1) if " " in x else (x, "") for x in out.split(" | "))
+            d, sh, fr = (parts.get(k, "").split(";") for k in ("DIRECT", "SHARED", "FRESH"))
+            bad = None
+            if len(d) != len(seq) or "PANIC" in out:
+                bad = "the peer fetch failed: %s" % out[:200]
+            else:
+                for i, (a, tid) in enumerate(seq):
+                    if sh[i] != d[i] or fr[i] != d[i]:
+                        bad = ("the template fetched from a peer for exporter %s, id %d is not the one the peer holds for that exporter and id: peer's own "
+                               "look-up %s, fetched over a connection used for several requests %s, over a connection of its own %s (request %d of %d)"
+                               % (a.hex(), tid, d[i], sh[i], fr[i], i + 1, len(seq)))
+                        break
+                if bad is None and (d[2] != "NA" or d[-1] != "NA"):
+                    bad = "the peer answers a request for a key it does not hold: %s / %s" % (d[2], d[-1])
+            if bad:
+                viol.append({"cases": [line], "verdict": bad}); break
+        return {"violations": viol[:1], "coverage": {"peer_fetch_cases": n}, "notes": notes + ["%d peer-fetch histories over the real RPC server on localhost" % n]}
+
     def judge(self, line, impl, model):
         v = FlowFidelity.judge(self, line, impl, model)
         if v and line in self.collision_lines and not v.startswith("model/implementation"):
@@ -234,6 +294,12 @@ class P(FlowFidelity):
                 "definition, data before/after the announcement in the same or a later message, data for ids only another exporter "
                 "announced; 20% of the histories use exporter/id pairs colliding under FNV-1-32 (seeded birthday search). IPFIX and v9. "
                 "non-trivial = distinct history with >= 2 exporters and >= 1 decoded record")
+
+    def trusted_base(self):
+        return FlowFidelity.trusted_base(self) + [
+            "peer fetch: translator extract/rpc.go (Gen/Rpc.v: IRPC.Get, RPCClient.Get, RPC of ipfix/memcache_rpc.go); net/rpc + encoding/gob "
+            "trusted to deliver what the server answered (gob's zero-field rule is stated in Model/PeerFetch.v, not verified); harness "
+            "harness/cmd/impl/rpcget.go runs the real RPCServer / RPCClient on localhost:8085; multicast discovery not exercised"]
 
 
 PROP = P()
